@@ -46,6 +46,13 @@ def cases(tier, seed):
                 for gate in ("passes", "fails"):
                     for agg in ("pc", "pc_cf"):
                         out.append({"env": {"APP_ENV": env}, "save_output": so, "setup": setup, "gate": gate, "agg": agg, "seed": seed})
+    # the same options in other containers (the library's own CLI hands over a tuple)
+    for env in ("local", "dev"):
+        for so in (["results"], ["data", "config"], ["results", "conformalization"], []):
+            for container in ("tuple", "frozenset"):
+                for setup in ("np2", "ga2"):
+                    for gate in ("passes", "fails"):
+                        out.append({"env": {"APP_ENV": env}, "save_output": so, "container": container, "setup": setup, "gate": gate, "agg": "pc_cf", "seed": seed})
     # histories: two estimate runs in one process, on fresh clients, with the parameter argument omitted (library default)
     # or one dictionary reused by the caller; the second run must persist exactly what *it* was asked to
     seq_opts = [[], ["conformalization"], ["results"], ["results", "conformalization"]]
@@ -191,8 +198,10 @@ def _evaluate(case):
         kwargs.pop("save_output")
         so = ["results"]
     else:
-        kwargs["save_output"] = list(case["save_output"])
+        kwargs["save_output"] = {"tuple": tuple, "frozenset": frozenset}.get(case.get("container"), list)(case["save_output"])
         so = list(case["save_output"])
+        if case.get("container"):
+            cov["non_list_containers"] += 1
     cwd0 = os.getcwd()
     scratch = tempfile.mkdtemp(prefix="mc_c18_")
     del fakes.S3_LOG[:]
@@ -283,4 +292,4 @@ def _evaluate(case):
     return {"violations": V, "cov": dict(cov), "outcome": sha([norm, files, outcome])[:16], "nontrivial": bool(exp or exp_files)}
 
 
-REQUIRED_COUNTERS = {"expect_live_results": 50, "live_results_with_failing_gate": 20, "expect_conformalization": 10, "expect_local_files": 100, "expect_nothing": 20, "sequences": 100}
+REQUIRED_COUNTERS = {"expect_live_results": 50, "live_results_with_failing_gate": 20, "expect_conformalization": 10, "expect_local_files": 100, "expect_nothing": 20, "sequences": 100, "non_list_containers": 30}
